@@ -390,9 +390,13 @@ func (d *deriver) obligations(dv *Derived, formatter string) {
 			vr, _ := varOf(tp)
 			okTP := vr != nil && symFlat(vr.Attrs["name"]) == mi.TypeParams[k].Name && symFlat(vr.Attrs["constraintOf"]) == fmt.Sprintf("tp%d_%d.constraint.type", si0(mi, i), k)
 			dv.ob("G-DATA/typeparams", "index-preserving", okTP, "TypeParams[%d] of mock %d is not built from type parameter %d (its name, typed by its constraint)", k, i, k)
-			c := fieldOf(structOf(tp), "Constraint")
-			_, isNil := c.(interp.NilV)
-			dv.ob("G-DATA/typeparams", "representative", isNil == (mi.TypeParams[k].Explicit == ""), "TypeParams[%d].Constraint of mock %d is %s", k, i, interp.Show(c))
+			// the representative type argument travels in a field of the type parameter's data — if the
+			// data model has such a field (without one the self-check line's type arguments are rendered
+			// elsewhere, and K-GENERIC / K-DECLS/ensure judge the line on the skeletons)
+			if c := fieldOf(structOf(tp), "Constraint"); c != nil {
+				_, isNil := c.(interp.NilV)
+				dv.ob("G-DATA/typeparams", "representative", isNil == (mi.TypeParams[k].Explicit == ""), "TypeParams[%d].Constraint of mock %d is %s", k, i, interp.Show(c))
+			}
 		}
 	}
 	for range mocks {
